@@ -450,6 +450,17 @@ pub fn run(r: &Run) -> Outcome {
             } else {
                 let mut rng = Rng::new(piece_seed);
                 let mut o = 0;
+                // A third of the fragmented deliveries start with a tiny first piece (1..15
+                // bytes, less than a small hash window) that the reader gets on its own: the
+                // writer pauses before it goes on.
+                if piece_seed % 3 == 1 && !data.is_empty() {
+                    let n = rng.urange(1, 15).min(data.len());
+                    if pipe.write_all(&data[..n]).is_ok() {
+                        let _ = pipe.flush();
+                        o = n;
+                        std::thread::sleep(Duration::from_millis(25));
+                    }
+                }
                 while o < data.len() {
                     let max = match rng.below(4) {
                         0 => 7,
